@@ -77,6 +77,11 @@ def run(ctx: Ctx, env):
     repo, schema, kf = env.repo, env.schema, env.kindflow
     visitors = H.visitors()
     ctx.floor("visitors", len(visitors), 7)
+    # the handlers rely on typing.infer_type / typecheck to refuse ill-typed arguments and to accept well-typed ones: the rules
+    # of C18 (what type each call has, when typecheck must raise) are a precondition
+    from . import c18 as _c18
+    from .c04 import _SubCtx
+    _c18.run(_SubCtx(ctx, only={"R1.return-type", "R2.infer-type-of-call", "R3.typecheck"}, rename=lambda r: "R0.typing-" + r.split(".", 1)[1]), env)
     total_handlers = 0
     total_raises = 0
     sources = {}
